@@ -258,6 +258,39 @@ theorem delegatecall_uses_caller_context (vm : VM) (life : Life) (A B C k v x : 
     simp [specMsg, specOps, specOp, specResume, SRes.finish, callValue, calleeCtx, topCtx,
       SWorld.setStor, VM.abs, hA, hB, hC, credit, envVal, hlt, SWorld.finalize, hCB]
 
+/-- **DELEGATECALL'd code behaves as the caller's own code — general form.**  For every script
+    `body` and every live target `t`: if `body`, run directly by contract `A` as a top-level
+    message, succeeds with observation log `l`, then `A` running the same `body` through a
+    DELEGATECALL to `t` observes exactly the same values (`1 :: l`: success flag + returned log) and
+    leaves exactly the same final storage of every contract, destroyed set, balances and events —
+    the delegated code read and wrote `A`'s storage and transient storage, saw `A`'s caller and
+    value, spent `A`'s balance, and even its SELFDESTRUCT hit `A`. -/
+theorem delegatecall_is_inline (vm : VM) (life : Life) (A value t dv : Nat) (body : List Op)
+    (l : List Nat) (hfresh : vm.Fresh life) (hA : vm.isDestroyed A = false)
+    (ht : vm.isDestroyed t = false)
+    (hok : (implMsg vm (Msg.mk life A value body)).1 = (1, l)) :
+    let r1 := implMsg vm (Msg.mk life A value [.call .delegate t dv body])
+    let r2 := implMsg vm (Msg.mk life A value body)
+    r1.1 = (1, 1 :: l) ∧ (∀ a k, r1.2.storageAt a k = r2.2.storageAt a k) ∧
+    (∀ a, r1.2.isDestroyed a = r2.2.isDestroyed a) ∧ r1.2.bal = r2.2.bal ∧
+    r1.2.events = r2.2.events := by
+  intro r1 r2
+  obtain ⟨a1, b1, c1, d1, e1⟩ := msg_refines_spec vm (Msg.mk life A value [.call .delegate t dv body]) hfresh
+  obtain ⟨a2, b2, c2, d2, e2⟩ := msg_refines_spec vm (Msg.mk life A value body) hfresh
+  rw [a2] at hok
+  obtain ⟨hlog, hst⟩ := spec_delegate_inline vm.abs life A value t dv body l hA ht hok
+  refine ⟨?_, fun a k => ?_, fun a => ?_, ?_, ?_⟩
+  · show (implMsg vm _).1 = _
+    rw [a1]; exact hlog
+  · show (implMsg vm _).2.storageAt a k = (implMsg vm _).2.storageAt a k
+    rw [b1, b2, hst]
+  · show (implMsg vm _).2.isDestroyed a = (implMsg vm _).2.isDestroyed a
+    rw [c1, c2, hst]
+  · show (implMsg vm _).2.bal = (implMsg vm _).2.bal
+    rw [d1, d2, hst]
+  · show (implMsg vm _).2.events = (implMsg vm _).2.events
+    rw [e1, e2, hst]
+
 /-! ### non-vacuity: the hypotheses are satisfiable and the scripts do what is claimed, by
     evaluation of the implementation model from the freshly deployed system -/
 
@@ -282,6 +315,12 @@ example : (implRun VM.init
        [.tstore 2 4, .call .call 1 0 [.sstore 3 3, .selfdestruct 0], .call .call 1 0 [.sload 3], .call .call 0 0 [.tload 2]]),
      (Msg.mk ⟨100, 1⟩ 0 0 [.tload 2, .call .call 1 0 [.sload 3]])]).1
     = [(1, [1, 1, 3, 1, 4]), (1, [0, 1])] := by
+  decide +kernel
+
+/-- delegated code runs in the caller's context (ADDRESS 1, CALLER 0, CALLVALUE 3, writes slot of 1) -/
+example : (implMsg VM.init (Msg.mk ⟨100, 0⟩ 0 3
+    [.call .call 1 3 [.call .delegate 2 0 [.env 0, .env 1, .env 2, .sstore 5 6], .sload 5]])).1
+    = (1, [1, 1, 1, 0, 3, 6]) := by
   decide +kernel
 
 /-- a static call cannot write: the callee fails, the caller sees flag 0 -/
